@@ -44,6 +44,9 @@ Checks(e) ==
   <<"local_inmotif_clustering(c)", Vec(e, "local_inmotif_clustering(c)", LAMBDA k : WInMotif(G, R, k))>>,
   <<"local_outmotif_clustering(c)", Vec(e, "local_outmotif_clustering(c)", LAMBDA k : WOutMotif(G, R, k))>>,
   <<"path_lengths(c)", Mat(e, "path_lengths(c)", LAMBDA a, b : IF WD[a][b] >= INFD THEN INF ELSE S * WD[a][b])>>,
+  <<"eigenvector_centrality(residual)", (und /\ Connected(D) /\ n >= 3 /\ Has(e, "eigenvector_centrality")) =>
+        EigenResidualOK(G, e.m["eigenvector_centrality"], 60)>>,
+  <<"pagerank(residual)", Has(e, "pagerank") => PageRankResidualOK(G, e.m["pagerank"], 40)>>,
   <<"assortativity", (und /\ AssortDen(G) > 0) => Sca(e, "assortativity", Assortativity(G))>>,
   <<"degree", Vec(e, "degree", LAMBDA k : S * Deg(G, k))>>,
   <<"indegree", Vec(e, "indegree", LAMBDA k : S * InDeg(G, k))>>,
